@@ -38,6 +38,20 @@ def global_aggregate_program():
     return ("global-array", m)
 
 
+def recursive_program():
+    """nested activations of one function: an argument, a local scalar and a local array stay alive across the recursive call;
+    results accumulate into globals"""
+    m = Module([Global("int", "total"), Global("int", "calls"),
+                Func("sum", [Arg("int", "n")], "int", Block([If(B("<=", V("n"), I(0)), Block([Ret(I(0))])), Ret(B("+", V("n"), Call("sum", [B("-", V("n"), I(1))])))])),
+                Func("add", [Arg("int", "n")], "int", Block([ES(A(V("total"), B("+", V("total"), Call("sum", [V("n")])))), ES(A(V("calls"), I(1), "+=")), Ret(V("total"))]), export=True),
+                Func("fact", [Arg("int", "n")], "int", Block([If(B("<=", V("n"), I(1)), Block([Ret(I(1))])), Ret(B("*", V("n"), Call("fact", [B("-", V("n"), I(1))])))]), export=True),
+                Func("walk", [Arg("int", "n")], "int",
+                     Block([Decl("int", "k", V("n")), Decl("int", "a", None, dims=[2]), ES(A(Idx(V("a"), I(1)), B("*", V("n"), I(3)))),
+                            If(B(">", V("n"), I(0)), Block([ES(Call("walk", [B("-", V("n"), I(1))])), ES(A(V("total"), B("+", V("total"), B("+", V("k"), Idx(V("a"), I(1))))))])),
+                            ES(A(V("calls"), I(1), "+=")), Ret(V("total"))]), export=True)])
+    return ("recursion", m)
+
+
 def run(ctx):
     ctx.static_obligations(STATIC)
     repo = ctx.sync_repo(1)[0]
@@ -76,6 +90,17 @@ def run(ctx):
                 calls.append({"vm": vm, "fn": "count", "args": {"i": rng.randrange(3)}, "globals": {}, "read_globals": ["n"]})
             else:
                 calls.append({"vm": vm, "fn": "count", "args": {"i": 1}, "globals": {"hist": [rng.randrange(5) for _ in range(3)]}, "read_globals": ["hist"]})
+        cases.append((name, m, calls))
+    name, m = recursive_program()
+    for rep in range(4 if ctx.tier == "quick" else 16):
+        calls = [{"vm": v, "fn": "add", "args": {"n": 0}, "globals": {"total": 0, "calls": 0}, "read_globals": ["total", "calls"]} for v in (0, 1)]
+        for _ in range(rng.randint(*hist_len)):
+            vm = rng.choice([0, 0, 1])
+            fnm = rng.choice(["add", "fact", "walk", "walk"])
+            c = {"vm": vm, "fn": fnm, "args": {"n": rng.randrange(0, 6)}, "globals": {}, "read_globals": ["total", "calls"]}
+            if rng.random() < 0.15:
+                c["globals"] = {"total": rng.choice([0, 10, -4])}
+            calls.append(c)
         cases.append((name, m, calls))
     for k in range(40 if ctx.tier == "quick" else 1200):
         g = gentyped.TGen(rng, floats=True, arrays=True, structs=(k % 2 == 0), calls=(k % 3 == 0), max_depth=2)
@@ -123,7 +148,7 @@ def run(ctx):
     ctx.cov["programs"] = len(cases)
     ctx.cov["rule"] = ("histories of %d-%d host operations (SetGlobal of typed values, Invoke of any exported function, GetGlobal of every global) interleaved on two VMs of the same "
                        "linked program: programs with default-initialised locals of every aggregate shape (1-3 dimensional arrays, structs, arrays of structs, structs holding arrays and "
-                       "structs) updated in place and accumulated into globals, a program keeping an array and counters in globals, and random programs of the C01 generator; observations "
+                       "structs) updated in place and accumulated into globals, a program keeping an array and counters in globals, a program of recursive functions that keep an argument, a local and a local array alive across the recursive call, and random programs of the C01 generator; observations "
                        "compared step by step inside Coq with per-VM states of the heap VM model and of the reference state machine. Non-trivial: every history; distinct by content." % hist_len)
     ctx.cov["samples"] = [{"program": n, "history_prefix": c[:4], "impl_prefix": r["calls"][:4]} for n, t, c, r in meta[:2]]
     ctx.extra["input_distribution"] = {"histories": len(cases), "operations": nops, "spec_skipped": sum(1 for c in codes if c is not None and c & 8), "model_skipped": sum(1 for c in codes if c is not None and c & 4)}
